@@ -13,6 +13,7 @@ LEVEL_NOTE = ('seeded walks with a saturation figure, not closure of the state s
 OPTIMIZED_EVERY = 25      # every 25th run is executed in a child interpreter started with python -O
 PBPY_EVERY = 50           # every 50th run (offset 6) is executed with protobuf's pure-Python backend
 COMPILED_EVERY = 25       # every 25th run (offset 12) is executed in a child that imports a mypyc build of the tree
+KEY_SAMPLE = {"thorough": 64}    # joint states are counted on a 1/64 hash sample in the thorough tier (tens of millions)
 RUNS = {"quick": 40000, "thorough": 1500000}
 RULE = ("seeded biased random walks (hot keys, cyclic sweeps over size+1 keys, bursts, uniform) of 1..400 lookups "
         "over table sizes 1..8 with size+2 keys, real LookupEncoder coupled event by event to the real LookupDecoder "
@@ -252,7 +253,7 @@ def run_rows(plan, sim):
                 terms.append(Literal("x", None, f"http://dt/{t[1]}"))
         try:
             rows = encode_triple(terms, enc, repeated)
-        except JellyConformanceError:
+        except Exception:  # noqa: BLE001  (whatever the refusal is called)
             sim.count("rows_refused")
             sim.event("refused", step)
             break               # refused rather than corrupted: allowed; the encoder state is not usable afterwards
